@@ -104,6 +104,14 @@ let hex_or_dash (bs : M.z list) : string = if bs = [] then "-" else hex_of_bytes
 
 (* ---------- suites -------------------------------------------------------- *)
 
+let ctx_verdict key ts =
+  match M.ctx_run key [] ts M.O with
+  | M.CRDone n -> Printf.sprintf "fin %d" (int_of_nat n)
+  | M.CRErr n -> Printf.sprintf "err %d" (int_of_nat n)
+  | M.CRStarved _ -> Printf.sprintf "starved %d" (List.length ts)
+
+let derr_name = function M.EEof -> "eof" | M.EUnexpectedEof -> "ueof" | M.EMalformed -> "other"
+
 (* cbor-enc: tokens -> "<class> <used> <hex> <chunklens> | <rfc hex or ->" *)
 let run_cbor_enc (payload : string) : string =
   let ts = parse_tokens payload in
@@ -115,9 +123,15 @@ let run_cbor_enc (payload : string) : string =
   let spec = match M.unflatten ts with
     | Some n -> hex_of_bytes (M.rfc_enc n)
     | None -> "-" in
-  Printf.sprintf "%s %d %s %s | %s" cls used (hex_or_dash (List.concat out)) (chunk_lens out) spec
-
-let derr_name = function M.EEof -> "eof" | M.EUnexpectedEof -> "ueof" | M.EMalformed -> "other"
+  let rt = if cls <> "fin" then "" else begin
+    let bs = List.concat out @ [byte_tab.(1); byte_tab.(2)] in
+    let total = List.length bs in
+    match M.dec_run false bs with
+    | M.DOk (toks, rest, _) -> Printf.sprintf " | rt: ok %d %s" (total - List.length rest) (print_tokens toks)
+    | M.DFail (e, toks, _) -> Printf.sprintf " | rt: err %s %d" (derr_name e) (List.length toks)
+    | _ -> " | rt: panic" end in
+  Printf.sprintf "%s %d %s %s | %s%s | ctx: %s" cls used (hex_or_dash (List.concat out)) (chunk_lens out) spec rt
+    (ctx_verdict M.key_cbor ts)
 
 (* cbor-dec: "<coerce 0|1> <hex>" -> "ok <consumed> <tokens> | <alloc> | <spec>" / "err <class> <ntoks> | .." *)
 let run_cbor_dec (payload : string) : string =
@@ -137,8 +151,49 @@ let run_cbor_dec (payload : string) : string =
     | M.PFuel -> "fuel" in
   left ^ " | " ^ spec
 
+(* optional bytes: "~" nil, "-" empty, else hex *)
+let opt_bytes (s : string) : M.z list option =
+  if s = "~" then None else if s = "-" then Some [] else Some (bytes_of_hex s)
+
+(* float oracle "<bits16>:<digits>:<dp>,..." -> lookup function *)
+let make_shortest (s : string) : M.z -> (M.z list * M.z) =
+  let tbl = Hashtbl.create 16 in
+  if s <> "-" then
+    List.iter (fun ent ->
+        match String.split_on_char ':' ent with
+        | [b; ds; dp] ->
+            let digits = List.init (String.length ds) (fun i -> z_of_int (Char.code ds.[i] - 48)) in
+            Hashtbl.replace tbl (String.lowercase_ascii b) (digits, z_of_dec dp)
+        | _ -> ()) (String.split_on_char ',' s);
+  fun bits -> try Hashtbl.find tbl (hex16_of_z bits) with Not_found -> ([], M.Z0)
+
+(* json-enc: "<line> <indent> <oracle>|<tokens>" *)
+let run_json_enc (payload : string) : string =
+  let i = String.index payload '|' in
+  let head = String.sub payload 0 i and toks = String.sub payload (i + 1) (String.length payload - i - 1) in
+  let line, indent, oracle = match split_ws head with
+    | [l; ind; o] -> (opt_bytes l, opt_bytes ind, o) | _ -> failwith "bad json-enc head" in
+  let ts = parse_tokens toks in
+  let o = { M.jline = line; M.jindent = (match indent with Some b -> b | None -> []) } in
+  let cls, out, used = match M.jenc_tokens (make_shortest oracle) o ts with
+    | M.JFinished (c, n) -> ("fin", c, int_of_nat n)
+    | M.JErrored (c, n) -> ("err", c, int_of_nat n)
+    | M.JPanicked (c, n) -> ("panic", c, int_of_nat n)
+    | M.JStarved (c, _) -> ("starved", c, List.length ts) in
+  let repr = List.for_all (fun t -> M.json_repr t.M.tv) ts in
+  Printf.sprintf "%s %d %s %s | ctx: %s | repr: %d" cls used (hex_or_dash (List.concat out)) (chunk_lens out)
+    (ctx_verdict M.key_json ts) (if repr then 1 else 0)
+
+let run_pretty_enc (payload : string) : string =
+  let ts = parse_tokens payload in
+  let (r, n) = M.penc_tokens ts in
+  let cls = match r with M.RDone -> "fin" | M.RErr -> "err" | M.RPanic -> "panic" | M.RCont -> "starved" in
+  Printf.sprintf "%s %d | ctx: %s" cls (if cls = "starved" then List.length ts else int_of_nat n) (ctx_verdict M.key_cbor ts)
+
 let dispatch (suite : string) (payload : string) : string =
   match suite with
+  | "json-enc" -> run_json_enc payload
+  | "pretty-enc" -> run_pretty_enc payload
   | "cbor-enc" -> run_cbor_enc payload
   | "cbor-dec" -> run_cbor_dec payload
   | _ -> "unknown-suite"
